@@ -62,6 +62,11 @@ func (c *c11) Cases(tier string, seed int64) []core.Case {
 	}
 	for i := 0; i < 4; i++ {
 		cs = append(cs, core.MkCase(fmt.Sprintf("concurrent-%d", i), c11Params{"concurrent", 12 + 7*i, 20, r.Int63()}))
+		if i < 2 {
+			rc := core.MkCase(fmt.Sprintf("race-concurrent-%d", i), c11Params{"concurrent", 10 + 9*i, 24, r.Int63()})
+			rc.Race = true
+			cs = append(cs, rc)
+		}
 	}
 	return cs
 }
